@@ -14,7 +14,7 @@ static unsigned short mon_cnt[4][257];   /* prefix counts of h_line (spec defini
 #include "lines.c"                       /* REAL code under contract */
 
 unsigned char nondet_uchar(void);
-long nondet_long(void);
+
 int nondet_int(void);
 unsigned nondet_uint(void);
 unsigned long nondet_ulong(void);
@@ -49,7 +49,8 @@ static void h_setup_line(void)
   mon_listo = nondet_int();
   mon_map = &SPEC_MAP;
   mon_indent_in = nondet_int();
-  g_diag = nondet_uint();
+  g_diag = nondet_ulong();
+
   g_wfail = nondet_uint();
   g_lines_listed = nondet_ulong();
 }
@@ -109,7 +110,8 @@ static void h_setup_file(void)
   mon_map = &SPEC_MAP;
   mon_listo = nondet_int();
   mon_indent_run = 0;
-  g_diag = nondet_uint();
+  g_diag = nondet_ulong();
+
   g_wfail = nondet_uint();
   g_read_error_happened = 0;
 }
